@@ -196,6 +196,15 @@ def catalogue(tier, rng):
         r2 = copy.deepcopy(r)
         r2['knownAlternatives'][17]['criteria']['zz_nobody_declared'] = PU
         add('many-alternatives-undeclared-value', req=r2, expect='any')
+    # criterion ids that look like the ids the criterion-adding biases generate: any answer, but an answer
+    for ids in (['__concealedCriterion__2', '__concealedCriterion__3'], ['__concealedCriterion__', '__concealedCriterion__1'],
+                ['__concealedCriterion__1', '__concealedCriterion__2', '__concealedCriterion__3']):
+        for mth in ('owa', 'majorityHeuristic'):
+            known = [{'id': 'a%d' % (i + 1), 'criteria': {c: PU * ((i + j) % 3 + 1) for j, c in enumerate(ids)}} for i in range(3)]
+            r = {'preferenceFunction': mth, 'knownAlternatives': known, 'choseToMake': ['a1', 'a2', 'a3'],
+                 'criteria': [{'id': c, 'type': 'gain'} for c in ids], 'methodParameters': {'weights': {c: PU for c in ids}},
+                 'biases': [{'name': 'criteriaConcealment', 'applyProbability': PU, 'props': {'randomSeed': 3}}]}
+            add('generated-looking-criterion-ids', req=r, expect='any')
     for b in bases[::2]:
         for label, r, exp, kw in mutations(rng, b):
             add(label, req=r, expect=exp, **kw)
